@@ -32,7 +32,7 @@ import CnvVerif.Driver.RangesExt
 open Lean CnvVerif.Drv
 
 def handlers : List (String → Json → Option Json → R (Option Json)) :=
-  [handleInterval, handleRangesExt, handleCall, handleCallCmd, handleCallWhole, handleSegFilter, handleSegFilterExt, handleTile, handleCenter, handleSexExt, handleFix, handleAccess, Genes.handleGenes, handleFormats, handleFormatsExt, handleExport, handleExportExt, Reference.handleReference, handleCoverage, handleCoverageExt, handleEffects, handleEffectsExt, handleBins, handleVcf, handleVcfExt, handleDescriptives, Haar.handleHaar, HaarExt.handleHaarExt, handleStats, handleStatsGlue]
+  [handleInterval, handleRangesExt, handleCall, handleCallCmd, handleCallWhole, handleCallWrappers, handleSegFilter, handleSegFilterExt, handleTile, handleCenter, handleSexExt, handleFix, handleAccess, Genes.handleGenes, handleFormats, handleFormatsExt, handleExport, handleExportExt, Reference.handleReference, handleCoverage, handleCoverageExt, handleEffects, handleEffectsExt, handleBins, handleVcf, handleVcfExt, handleDescriptives, Haar.handleHaar, HaarExt.handleHaarExt, handleStats, handleStatsGlue]
 
 def dispatch (op : String) (inp : Json) (impl : Option Json) : R Json := do
   for h in handlers do
